@@ -50,7 +50,8 @@ def planSort : List SortField → PTPlan → PTPlan
         planSort rest p
 
 def ptPlan (t : Table) (req : Request) : PTPlan :=
-  planSort req.sort (planColumns (requestColumns t req) 0 {})
+  -- Stats results are not sorted: sort keys outside the column list are fetched for data requests only
+  planSort (if req.stats.isEmpty then req.sort else []) (planColumns (requestColumns t req) 0 {})
 
 /-- the request every backend receives (`passthroughRequest`) -/
 def subRequest (req : Request) (p : PTPlan) : Request :=
